@@ -3,6 +3,7 @@ package c14
 import (
 	"bytes"
 	"fmt"
+	"math"
 
 	rpb "github.com/google/gce-tcb-verifier/proto/releases"
 	"google.golang.org/protobuf/encoding/prototext"
@@ -118,6 +119,9 @@ func segment(v *vcs, log []event) *vcsObs {
 func maxAttempts(retries int) int {
 	if retries < 0 {
 		retries = 0
+	}
+	if retries == math.MaxInt {
+		return math.MaxInt // retries+1 does not exist as an int; no run gets there
 	}
 	return retries + 1
 }
